@@ -6,6 +6,7 @@ import (
 	"io"
 	mrand "math/rand"
 	"sort"
+	"strings"
 	"sync"
 
 	"github.com/beevik/etree"
@@ -51,6 +52,21 @@ func (r *recReader) Read(p []byte) (int, error) {
 		r.reads = append(r.reads, cp)
 		r.mu.Unlock()
 	}
+	return n, err
+}
+
+// shortReader returns at most five octets per Read and keeps the stream it handed out.
+type shortReader struct {
+	inner  io.Reader
+	stream []byte
+}
+
+func (r *shortReader) Read(p []byte) (int, error) {
+	if len(p) > 5 {
+		p = p[:1+len(r.stream)%5]
+	}
+	n, err := r.inner.Read(p)
+	r.stream = append(r.stream, p[:n]...)
 	return n, err
 }
 
@@ -165,6 +181,40 @@ func (IdGen) Extra(tier string, seed int64) []orch.Case {
 	}
 	wg.Wait()
 
+	// second phase: an entropy source that hands out at most five octets per Read (io.Reader permits
+	// that). Single goroutine, unsigned messages only, so the stream of octets read belongs to the
+	// identifiers in order: identifier i must be built from octets [16i, 16i+16).
+	short := &shortReader{inner: old}
+	rand.Reader = short
+	nShort := 300
+	var shortEvs []rawEv
+	for i := 0; i < nShort; i++ {
+		sp := sps[i%nSP]
+		var doc *etree.Document
+		var err error
+		kind := []string{"authn", "logoutReq", "logoutResp"}[i%3]
+		switch kind {
+		case "authn":
+			doc, err = sp.BuildAuthRequestDocumentNoSig()
+		case "logoutReq":
+			doc, err = sp.BuildLogoutRequestDocumentNoSig("alice@example.com", "sess-1")
+		default:
+			doc, err = sp.BuildLogoutResponseDocumentNoSig(saml2.StatusCodeSuccess, "_req-1")
+		}
+		if err != nil || doc == nil || doc.Root() == nil {
+			orch.Fatal("idgen: build %s: %v", kind, err)
+		}
+		shortEvs = append(shortEvs, rawEv{kind + "/short-reads", i % nSP, 0, doc.Root().SelectAttrValue("ID", "")})
+	}
+	rand.Reader = rec
+	shortDraw := map[string][]byte{}
+	for i, e := range shortEvs {
+		if 16*i+16 <= len(short.stream) {
+			shortDraw[e.id] = short.stream[16*i : 16*i+16]
+		}
+		evs = append(evs, e)
+	}
+
 	// index the recorded 16-octet reads by their free bits
 	byFree := map[[16]byte][][]byte{}
 	for _, r := range rec.reads {
@@ -181,7 +231,12 @@ func (IdGen) Extra(tier string, seed int64) []orch.Case {
 		if ev.Prev == nil {
 			ev.Prev = []int{}
 		}
-		if b := idBytes(e.id); b != nil {
+		if d, ok := shortDraw[e.id]; ok && strings.HasSuffix(e.kind, "/short-reads") {
+			ev.DrawsMatching = 1
+			for _, x := range d {
+				ev.Draw = append(ev.Draw, int(x))
+			}
+		} else if b := idBytes(e.id); b != nil {
 			m := byFree[freeBitsKey(b)]
 			ev.DrawsMatching = len(m)
 			if len(m) > 0 {
